@@ -105,6 +105,7 @@ impl<'de, R: Reader<'de>> Parser<R> {
     pub fn skip_one_unchecked(&mut self) -> (res: Result<(&'de [u8], ParseStatus)>)
         requires old(self).pinv(),
         ensures final(self).pinv(), final(self).same_doc(old(self)), final(self).read.idx() >= old(self).read.idx(),
+            res.is_err() ==> err_ok(res->Err_0, old(self).read.data()),
     { unimplemented!() }
     // borrow-or-copy decoder: acceptance contract assumed here (unit `strings`)
     #[verifier::external_body]
@@ -114,11 +115,15 @@ impl<'de, R: Reader<'de>> Parser<R> {
             res.is_ok() ==> str_end(old(self).read.data(), old(self).read.idx() as int) == Some(final(self).read.idx() as int),
             str_end(old(self).read.data(), old(self).read.idx() as int).is_none() ==> res.is_err(),
             final(self).read.idx() >= old(self).read.idx(),
+            res.is_err() ==> err_ok(res->Err_0, old(self).read.data()),
     { unimplemented!() }
     #[verifier::external_body]
     pub fn peek_invalid_type(&mut self, peek: u8, exp: &str) -> (e: Error)
-        requires old(self).pinv(),
+        // proved for the real function in unit `typed_err`: it may step back one byte (onto `[` / `{`)
+        requires old(self).pinv(), old(self).read.idx() >= 1, peek == old(self).read.data()[old(self).read.idx() - 1],
+            old(self).nospace_start == -128 || old(self).nospace_start <= old(self).read.idx() - 1,
         ensures final(self).pinv(), final(self).same_doc(old(self)), final(self).read.idx() >= old(self).read.idx(),
+            err_ok(e, old(self).read.data()),
     { unimplemented!() }
 
 //@extract file=src/parser.rs impl="Parser<R>" fn=get_many_rec
@@ -137,6 +142,8 @@ impl<'de, R: Reader<'de>> Parser<R> {
             // unless every path has been served (early exit), the value at this position was validated completely
             (res.is_ok() && *final(remain) > 0) ==> value_end(old(self).read.data(), old(self).read.idx() as int) == Some(final(self).read.idx() as int),
             final(self).read.idx() >= old(self).read.idx(),
+            // every error is made by Parser::error: positioned inside the input (C20)
+            res.is_err() ==> err_ok(res->Err_0, old(self).read.data()),
         decreases old(self).read.data().len() - old(self).read.idx(), 3nat
 //@before /let ch = self\.skip_space_peek\(\);/
         let ghost s = self.read.data();
@@ -187,6 +194,8 @@ impl<'de, R: Reader<'de>> Parser<R> {
             *final(remain) == unfilled(final(out)@),
             (res.is_ok() && *final(remain) > 0) ==> value_end(old(self).read.data(), old(self).read.idx() as int) == Some(final(self).read.idx() as int),
             final(self).read.idx() >= old(self).read.idx(),
+            // every error is made by Parser::error: positioned inside the input (C20)
+            res.is_err() ==> err_ok(res->Err_0, old(self).read.data()),
         decreases old(self).read.data().len() - old(self).read.idx(), 2nat
 //@before /match self\.skip_space\(\) \{/ #1
         let ghost s = self.read.data();
@@ -228,6 +237,8 @@ impl<'de, R: Reader<'de>> Parser<R> {
             *final(remain) == unfilled(final(out)@),
             (res.is_ok() && *final(remain) > 0) ==> value_end(old(self).read.data(), old(self).read.idx() as int) == Some(final(self).read.idx() as int),
             final(self).read.idx() >= old(self).read.idx(),
+            // every error is made by Parser::error: positioned inside the input (C20)
+            res.is_err() ==> err_ok(res->Err_0, old(self).read.data()),
         decreases old(self).read.data().len() - old(self).read.idx(), 2nat
 //@before /match self\.skip_space\(\) \{/ #1
         let ghost s = self.read.data();
